@@ -84,6 +84,18 @@ def forFold {α σ ρ : Type} (f : σ → Int → α → Option (Flow σ ρ)) : 
     | some (.ret r) => some (.ret r)
     | some (.next s') => forFold f xs (i + 1) s'
 
+/-- `for i := a; i < b; i++ { … }` whose body assigns neither `i` nor the bound: max(0, b - a) iterations -/
+def forCountAux {σ ρ : Type} (f : σ → Int → Option (Flow σ ρ)) : Nat → Int → σ → Option (Flow σ ρ)
+  | 0, _, s => some (.next s)
+  | n + 1, i, s =>
+    match f s i with
+    | none => none
+    | some (.ret r) => some (.ret r)
+    | some (.next s') => forCountAux f n (i + 1) s'
+
+def forCount {σ ρ : Type} (f : σ → Int → Option (Flow σ ρ)) (a b : Int) (s : σ) : Option (Flow σ ρ) :=
+  forCountAux f (b - a).toNat a s
+
 /-- `make(T, n)`: n zero values; a negative length panics -/
 def mkLen {α : Type} (n : Int) (z : α) : Option (List α) := if n < 0 then none else some (List.replicate n.toNat z)
 /-- `make(T, 0, c)`: the empty slice; a negative capacity panics -/
